@@ -18,7 +18,7 @@ from simkit.stream import (SimStreamNet, TcpPeer, TcpPeerListener, order_tcp_poo
 
 PROPERTY = "C15"
 LEVEL = "exploration"
-RUNS = {"quick": 800, "thorough": 40000}
+RUNS = {"quick": 2400, "thorough": 40000}
 BUDGET = {"quick": 75, "thorough": 3000}
 RULE = ("seeded scenarios of three workloads: A = 1-2 real TCP client contexts against a real TCP server context, "
         "1-8 requests/responses whose option+payload lengths are drawn around 12/13, 268/269, 65804/65805, concurrent "
